@@ -44,3 +44,10 @@ func init() {
 			"tx, err := beginner.BeginTx(ctx, opt)\n\t\treturn &PreparedStmtTX{PreparedStmtDB: db, Tx: tx}, err", "tx, err := beginner.BeginTx(ctx, opt)\n\t\treturn &PreparedStmtTX{PreparedStmtDB: NewPreparedStmtDB(db.ConnPool), Tx: tx}, err"}}},
 	)
 }
+
+func init() {
+	addMutants(
+		Mutant{Name: "c14-entry-stmt-published-without-lock", Property: "C14", Rule: "C14.inprogress", Edits: []Edit{{"prepare_stmt.go",
+			"\tdb.Mux.Lock()\n\tcacheStmt.Stmt = stmt\n\tdb.Mux.Unlock()\n", "\tcacheStmt.Stmt = stmt\n"}}},
+	)
+}
